@@ -14,7 +14,7 @@
     connection is still working through the packets it has buffered.
 
     Tiny model: the status and whether the lock is held by the blocked handler. *)
-From Coq Require Import List Bool Arith.
+From Coq Require Import List Bool Arith NArith.
 Import ListNotations.
 
 Record cstate := mkCS { connected : bool; stuck : bool }.
@@ -402,4 +402,19 @@ Proof.
         rewrite H1. cbn [dials]. apply le_n. }
   intros ls Hall. exact (proj2 (H ls kinit Hall) eq_refl).
 Qed.
+
+(** ---- Design refutation (C12/C10): the long form of the length prefix from 255 on ----
+
+    With `i > 254` instead of `i >= 254` a field of exactly 254 bytes is written with
+    the one-byte prefix 254, which every reader takes for the marker of the long
+    form: the three data bytes that follow are read as the length. *)
+From Tongo Require Import Model.Client.
+Local Open Scope N_scope.
+
+Definition enc_len_gt (n : N) : list N :=
+  if (n <=? 254) then [n] else [254; n mod 256; (n / 256) mod 256; (n / 65536) mod 256].
+
+Theorem len_prefix_gt_refuted :
+  exists r, dec_len (enc_len_gt 254 ++ r) <> Some (254, r).
+Proof. exists [1; 2; 3; 4]. vm_compute. discriminate. Qed.
 
